@@ -27,6 +27,9 @@ type vTarget struct {
 	Updates [][]*sdcpb.Update
 	Deletes [][]*sdcpb.Path
 	FailSet int // 1-based index of the Set call that fails (0 = never)
+	// StallSet non-nil: Set does not answer before the channel is closed (a device that hangs;
+	// the datastore calls Set without a deadline)
+	StallSet chan struct{}
 
 	AllEncodings  bool // also render JSON, JSON_IETF and XML (8 option combinations)
 	JsonEmpty     []bool
@@ -50,6 +53,9 @@ func (t *vTarget) Get(ctx context.Context, req *sdcpb.GetDataRequest) (*sdcpb.Ge
 
 func (t *vTarget) Set(ctx context.Context, source target.TargetSource) (*sdcpb.SetDataResponse, error) {
 	t.Sets++
+	if ch := t.StallSet; ch != nil {
+		<-ch
+	}
 	if t.FailSet != 0 && t.Sets == t.FailSet {
 		return nil, errVerifTarget
 	}
